@@ -144,3 +144,31 @@ def _mk(prop, shard):
 for _p in sorted(set(p for ps in STRUCT_PROPS.values() for p in ps) | set(PRIM_PROPS)):
     for _s in ((True, 32), (True, 64), (False, 32), (False, 64)):
         _mk(_p, _s)
+
+
+@task('c19-struct-factories-raise-nothing', ['C19'], kind='ground')
+def factories_raise_nothing(tier, seed):
+    """C19: the two struct-factory calls of the ELFFile constructor are ASSUMED contracts in the K1 proof of the constructor's
+    exception clause ("no effect, no exception").  Their arguments are (byte order, class) and the three header codes e_type,
+    e_machine, EI_OSABI, which the factories only compare with names: the space {LSB, MSB} x {32, 64} x (every machine name +
+    one unnamed number) x (the OS ABIs the code distinguishes + one other + one unnamed number) x (ET_CORE, another name, one
+    unnamed number) is complete up to the choice of the unnamed number.  Both calls must return for every point of it."""
+    from elftools.elf.structs import ELFStructs
+    t0 = time.time()
+    n, bad = 0, None
+    for le, cls, t, m, o in config_space(tier):
+        n += 1
+        try:
+            st = ELFStructs(little_endian=le, elfclass=cls)
+            st.create_basic_structs()
+            st.create_advanced_structs(t, m, o)
+        except Exception as e:
+            bad = bad or ((le, cls, t, m, o), repr(e))
+    nat = bad and dict(confirmed=True, how='ELFStructs(little_endian, elfclass).create_basic_structs(); create_advanced_structs(e_type, e_machine, osabi)',
+                       input=repr(bad[0]), observed=bad[1], expected='returns (the constructor may raise ELFError only)')
+    obs = [dict(name='ground:elf/structs.py:create_basic_structs+create_advanced_structs raise nothing', kind='ground',
+                verdict='refuted' if bad else 'proved', backend='ground-eval', time=round(time.time() - t0, 2),
+                detail=bad and 'configuration %r: %s' % bad, native=nat)]
+    return dict(obligations=obs, assumptions=['one unnamed number stands for every code without a name (the factories compare codes with names only)'],
+                functions=[dict(function='elftools/elf/structs.py:ELFStructs.create_basic_structs+create_advanced_structs (exception freedom)',
+                                kind='ground', configurations=n)], exhaustive=True, configurations=n)
